@@ -47,7 +47,7 @@ ASSUMPTIONS = [
     "children and disposables are fault free, so the injected cancellation is the only fault (TaskGroup gives child errors priority over a cancellation; that is unspecified here)",
     "an injection that was requested but not delivered as CancelledError at that point (the awaited step had already completed) is counted, not judged",
 ]
-MINIMUMS = {"delivered_in_entering": 50, "delivered_in_body": 200, "delivered_in_exiting": 200, "monitor:victim-cancelled": 1000, "monitor:check-cancellation": 40, "blocked_children_at_injection": 200}
+MINIMUMS = {"delivered_in_entering": 50, "delivered_in_body": 200, "delivered_in_exiting": 200, "monitor:victim-cancelled": 1000, "monitor:check-cancellation": 40, "blocked_children_at_injection": 200, "injections_delayed_by_loop_iterations": 5000}
 JOBS = {"quick": 4, "thorough": 16}
 LEVEL_TEXT = (
     "For each victim program and gate schedule the victim's suspension points are counted in a fault-free run, then one run per point injects a cancellation request exactly "
